@@ -17,6 +17,11 @@ pub fn op_key(op: &Value) -> String {
     let mut o = op.clone();
     if let Some(m) = o.as_object_mut() {
         m.remove("want_text");
+        // a copy of a project elsewhere is the same project: same reference
+        if m.get("op").and_then(|v| v.as_str()) == Some("convert_dir_copy") {
+            m.insert("op".into(), json!("convert_dir"));
+            m.remove("copy_name");
+        }
     }
     serde_json::to_string(&o).unwrap()
 }
@@ -428,6 +433,15 @@ pub fn run(tier: &str, seed: u64, replay: Option<String>) -> i32 {
             let hs = 1 + rng.next_u64() % 1_000_000;
             let ft = if k % 2 == 1 { Some(978_307_200 + rng.next_u64() % 1_500_000_000) } else { None };
             cases.push(Case { mode: "fresh_process", job: single_job(op), env: env_of(hs, ft) });
+        }
+    }
+    // the same project copied elsewhere under another directory name is the same project
+    for op in conv_ops.iter().filter(|o| o["op"] == "convert_dir") {
+        for name in ["copia de trabajo", "otro_nombre"].iter().take(if thorough { 2 } else { 1 }) {
+            let mut c = op.clone();
+            c["op"] = json!("convert_dir_copy");
+            c["copy_name"] = json!(name);
+            cases.push(Case { mode: "fresh_process", job: single_job(&c), env: env_of(1 + rng.next_u64() % 1000, None) });
         }
     }
     let n_fresh = cases.len();
